@@ -253,6 +253,11 @@ impl ResolutionResolver {
     pub open spec fn nodec(&self, state: int) -> bool {
         self.mode is AllDecision ==> forall|k: int| #![trigger self.to_process_heap.present@.contains(k)] self.to_process_heap.present@.contains(k) ==> !is_decision(state, self.predicate_id_generator.ids@[k])
     }
+    // @C05 all-decision learning (core extraction): what has been processed consists of decisions - at the assumption levels these are
+    // the assumptions, which is why every predicate of a core is implied by the assumptions
+    pub open spec fn alldec(&self, state: int) -> bool {
+        self.mode is AllDecision ==> forall|j: int| #![trigger self.processed_nogood_predicates@[j]] 0 <= j < self.processed_nogood_predicates@.len() ==> is_decision(state, self.processed_nogood_predicates@[j])
+    }
     // @C07 @C02 the working nogood is refuted by the model
     pub open spec fn refuted(&self, model: Model) -> bool { forall|a: Asg| #![trigger model(a)] model(a) ==> !self.cur_holds(a) }
     // every predicate of the working nogood is true in the current state
@@ -263,7 +268,8 @@ impl ResolutionResolver {
     // whatever satisfies the final nogood satisfies the working nogood
     #[verifier::external_body]
     pub fn extract_final_nogood(&mut self, context: &mut ConflictAnalysisContext) -> (r: LearnedNogood)
-        requires old(self).wf(), old(context).ready()
+        requires old(self).wf(), old(context).ready(),
+                 old(self).alldec(old(context).assignments.state@) && (old(self).mode is AllDecision ==> old(self).to_process_heap.present@.len() == 0),   // @C05 a core is made of decisions only
         ensures forall|a: Asg| #![trigger (old(context).model@)(a)] (old(context).model@)(a) && seq_holds(r.predicates@, a) ==> old(self).cur_holds(a),
     { unimplemented!() }
 }
